@@ -283,13 +283,22 @@ def leakMain : List Transform := [
 def leakedSort : RelationalQuery :=
   mk [tDecl3, { id := 1, relation := { kind := .pipeline leakInner, columns := [cA, cB, cC] } }] leakMain [cA, cB, cC]
 
+/-- the RQ prqlc emits for `from t | group {b} (sort {a} | take 2 | select {a, c})` over a declared `t <[{a, b, c}]>`: the group
+pipeline's own `Select [a, c]` hides the partition column `b` (id 1), which the Select the group appends lists again -/
+def groupSelectHidesPartition : RelationalQuery :=
+  mk [tDecl3] [.from_ { source := 0, columns := [(cA, 0), (cB, 1), (cC, 2)], name := some ['t'] },
+    .take { rangeEnd := some .literal, partition := [1], sort := [{ column := 0 }] },
+    .select [0, 2], .select [1, 0, 2]] [cB, cA, cC]
+
 /-- the scope clause fails on documents the real compiler emits.  Known findings stale-sort-after-select and
 stale-sort-after-aggregate: nothing else is wrong with the document (`wfRqLax`).  Known finding sort-leaks-into-subpipeline:
-a table uses a column id that only the enclosing pipeline defines (also `wfRqLax` fails: the document is not closed). -/
+a table uses a column id that only the enclosing pipeline defines (also `wfRqLax` fails: the document is not closed).
+Known finding group-pipeline-select-hides-partition-column: a Select of the flattened group pipeline cuts the partition column off. -/
 theorem emitted_rq_wf_counterexample :
     wfRq staleSortSelect = .error (.notVisible 1) ∧ wfRqLax staleSortSelect = .ok () ∧
     wfRq staleSortAggregate = .error (.notVisible 1) ∧ wfRqLax staleSortAggregate = .ok () ∧
-    wfRq leakedSort = .error (.notVisible 1) ∧ wfRqLax leakedSort = .error (.notVisible 1) := by decide
+    wfRq leakedSort = .error (.notVisible 1) ∧ wfRqLax leakedSort = .error (.notVisible 1) ∧
+    wfRq groupSelectHidesPartition = .error (.notVisible 1) ∧ wfRqLax groupSelectHidesPartition = .error (.notVisible 1) := by decide
 
 /-! ## T2: what the back end may rely on -/
 
